@@ -47,7 +47,40 @@ fn concrete_edit(src: &str, shape: &Value, rng: &mut Rng, layout: bool) -> (usiz
   let line_starts: Vec<usize> = std::iter::once(0).chain(src.match_indices('\n').map(|(i, _)| i + 1)).filter(|&i| i <= src.len()).collect();
   let lines: Vec<&str> = src.split_inclusive('\n').collect();
   // layout-sensitive carriers get white-space insertions most of the time
-  let kind = if layout && rng.chance(2, 3) { 6 } else { rng.below(10) };
+  let kind = if layout && rng.chance(2, 3) { 6 } else { rng.below(12) };
+  if kind >= 10 {
+    // what is deleted ENDS with a character of several bytes (and the text goes on after it): a word whose last
+    // letter is such a character is renamed or removed, or a run of 1-3 characters ending in one is cut out
+    let cs: Vec<(usize, char)> = src.char_indices().collect();
+    let mut words: Vec<(usize, usize)> = vec![];
+    let mut i = 0;
+    while i < cs.len() {
+      if cs[i].1.is_alphanumeric() || cs[i].1 == '_' {
+        let st = i;
+        while i < cs.len() && (cs[i].1.is_alphanumeric() || cs[i].1 == '_') {
+          i += 1;
+        }
+        if cs[i - 1].1.len_utf8() > 1 && i < cs.len() {
+          words.push((cs[st].0, cs[i].0));
+        }
+      } else {
+        i += 1;
+      }
+    }
+    if !words.is_empty() && rng.chance(3, 4) {
+      let (st, en) = *rng.pick(&words);
+      let rep = *rng.pick(&["shop", "x", "qé", "v2"]);
+      return (st, en - st, rep.to_string());
+    }
+    let ends: Vec<usize> = (1..cs.len()).filter(|&k| cs[k - 1].1.len_utf8() > 1).collect();
+    if !ends.is_empty() {
+      let k = *rng.pick(&ends);
+      let back = 1 + rng.below(3).min(k - 1);
+      let (st, en) = (cs[k - back].0, cs[k].0);
+      let rep = *rng.pick(&["", "z", "é"]);
+      return (st, en - st, rep.to_string());
+    }
+  }
   // whole-line operations and token renames keep most results error-free
   if kind < 3 && lines.len() >= 2 {
     let from = rng.below(lines.len());
@@ -200,6 +233,9 @@ pub fn drive(vectors: Option<&str>, corpus: &str, seed: u64, out: &str, thorough
     (SupportLang::Python, "carrier5".into(), "if ready:\n  start()\nreport()\nfor x in y:\n    a = 1\n    b = 2\nc = 3\n".into()),
     (SupportLang::JavaScript, "carrier6".into(), "let n = 1; // then reset()\nfunction f() {\n  return x + 1;\n}\n".into()),
     (SupportLang::Rust, "carrier4".into(), "fn main() {\n    let s = \"é🦀\";\n    println!(\"{}\", s);\n}\n".into()),
+    // words whose last letter takes several bytes, followed by more text
+    (SupportLang::JavaScript, "carrier7".into(), "let café = 1;\nconsole.log(café, \"naïve é\", total);\n// commenté ici\nlet π = café + 1;\n".into()),
+    (SupportLang::Python, "carrier8".into(), "π = 3\nnaïveté = π * 2\nprint(π, naïveté)  # commenté\n".into()),
   ];
   for (l, path, text) in util::corpus(corpus) {
     if path.contains("/c.") || (thorough && text.len() < 2500) {
@@ -222,6 +258,24 @@ pub fn drive(vectors: Option<&str>, corpus: &str, seed: u64, out: &str, thorough
           for ws in ["  ", "\n", "\n  ", " ", "    "] {
             planned.push((b, 0, ws.to_string()));
           }
+        }
+      }
+    }
+    if path == "carrier7" || path == "carrier8" {
+      // every word ending in a character of several bytes is renamed, as a first step
+      let cs: Vec<(usize, char)> = text.char_indices().collect();
+      let mut i = 0;
+      while i < cs.len() {
+        if cs[i].1.is_alphanumeric() {
+          let st = i;
+          while i < cs.len() && cs[i].1.is_alphanumeric() {
+            i += 1;
+          }
+          if cs[i - 1].1.len_utf8() > 1 && i < cs.len() {
+            planned.push((cs[st].0, cs[i].0 - cs[st].0, "shop".to_string()));
+          }
+        } else {
+          i += 1;
         }
       }
     }
